@@ -36,6 +36,7 @@ func runC12(s *Sim) {
 	s.Family = "hostile-frames"
 	bc := BrokerCfg{AutoReq: false, AutoAck: false, AutoPong: false, AutoCallAck: false, AutoAckComplete: true}
 	y := newSys(s, bc)
+	s.Net.Unrel = t.Bool("datagram-side", 1, 3) // the connection has a datagram side with a reader of its own
 	if t.Bool("json", 1, 3) {
 		y.Enc = iscp.EncodingNameJSON
 	}
@@ -143,6 +144,19 @@ func runC12(s *Sim) {
 					hostileLeft--
 					s.Nontrivial()
 					kind := Pick(t, "hostile-kind", "wrong-type", "bitflip", "truncate", "random", "splice", "structural", "inflate", "structural", "misaddressed", "flood", "conflicting-open-response")
+					if kind == "conflicting-open-response" && l.unrel != nil && t.Bool("ack-on-the-datagram-side-after-garbage", 1, 2) {
+						// an undecodable frame on the reliable side (its reader may give up), then a well-formed
+						// upstream ack arriving on the datagram side, where acks do not belong
+						l.pushRaw([]byte{0xff, 0xfe, 0xfd, 0x01})
+						l.DeliverAll()
+						s.Wait()
+						if l.pushUnreliable(&message.UpstreamChunkAck{StreamIDAlias: c.up.B.aliasOn[l.ID], Results: []*message.UpstreamChunkResult{{SequenceNumber: 1, ResultCode: message.ResultCodeSucceeded, ResultString: "ok"}}}) {
+							s.Stat("fault.corrupt-ack-on-datagram-side")
+						}
+						s.Wait()
+						s.Logf("hostile: garbage on the reliable side, then an upstream ack on the datagram side")
+						return
+					}
 					if kind == "conflicting-open-response" {
 						// a well-formed, successful answer to an outstanding upstream open that names the
 						// stream id of a stream the client already has (under another alias)
